@@ -933,7 +933,7 @@ let () = register "c05" (fun line ->
     let dir n b2c =
       let d = data n b2c in
       let half = L.filteri (fun i _ -> i < n / 2) d and rest = L.filteri (fun i _ -> i >= n / 2) d in
-      Relay.rrun (n_of_int 16384) ([Relay.RSend half; Relay.RCopy (n_of_int 5)] @ [Relay.RSend rest; Relay.RFinish] @ rounds n) in
+      Relay.rrun Tables.tcp_buf_size ([Relay.RSend half; Relay.RCopy (n_of_int 5)] @ [Relay.RSend rest; Relay.RFinish] @ rounds n) in
     let show (d : Relay.dir) = Printf.sprintf "%d:%08x eof=%d" (L.length d.Relay.delivered) (fnv32 d.Relay.delivered) (if d.Relay.eof_delivered then 1 else 0) in
     ignore order;
     Printf.sprintf "c2b=%s b2c=%s upstream=1/1/0" (show (dir nc false)) (show (dir nb true))))
